@@ -4,7 +4,7 @@ C17 — version helpers preserve ordering and PEP 440 semantics (oslo_utils/vers
 Property theorems only; helper lemmas are `lemma_…` (here when they mention the specification
 vocabulary below, otherwise in `OsloProofs/Lemmas/C17.lean`).  Every theorem quantifies over all
 component lists / all strings / every instance `P : Pep V` of the abstract `packaging.version`
-interface.  Theorems about `_COMP_MAP` and the predicate pattern are stated over the tables in
+interface.  Theorems about the operator table and the clause grammar are stated over the tables in
 `Generated/C17.lean`, which are re-read from the code on every run.
 -/
 import OsloProofs.Lemmas.C17
@@ -497,11 +497,15 @@ theorem compatible_iff_order {V} (P : Pep V) (le : V → V → Prop) (hP : Lawfu
 theorem comp_map_faithful : ∀ op ∈ opAlternatives, lookupCmp op = opDenotes op ∧ (opDenotes op).isSome = true := by
   decide
 
-/-- **Pattern** (over the generated pattern text): the regex modelled by `matchPiece` is the one in the code. -/
-theorem predicate_pattern_is_modelled :
-    Gen.predicatePattern = ['^', '\\', 's', '*', '(', '<', '=', '|', '>', '=', '|', '<', '|', '>', '|', '!', '=', '|',
-      '=', '=', ')', '\\', 's', '*', '(', '[', '^', '\\', 's', ']', '+', ')', '\\', 's', '*', '$'] ∧
-    Gen.predicateFlags = 32 := by decide
+/-- **Clause grammar** (over the probes generated from the running code through the public API):
+    on every probed clause text the constructor succeeds exactly when the model's matcher reads the
+    text as an operator followed by the bound `1.5`. -/
+theorem predicate_probes_are_modelled :
+    ∀ pa ∈ Gen.clauseProbes,
+      pa.2 = (match matchPiece pa.1 with
+              | some (_, ver) => decide (ver = ['1', '.', '5'])
+              | none => false) := by
+  decide +kernel
 
 /-- **Predicate grammar** — the matcher accepts exactly the pieces of the grammar
     `ws* op ws* nonws+ ws*`, and what it returns is an operator of the alternation and a
